@@ -27,7 +27,8 @@ pub axiom fn axiom_rat_parts(x: &BigRat)
     ensures
         rat_denom(x@) > 0,
         (rat_numer(x@) as real) == x@ * (rat_denom(x@) as real),
-        is_integral(x@) ==> rat_denom(x@) == 1,
+        is_integral(x@) <==> rat_denom(x@) == 1,
+        rat_denom(x@) == 1 ==> rat_numer(x@) == x@.floor(),
 ;
 
 impl BigRat {
@@ -74,8 +75,8 @@ impl BigRat {
             r@ == rat_numer(self@),
             rat_denom(self@) > 0,
             (r@ as real) == self@ * (rat_denom(self@) as real),
-            rat_denom(self@) == 1 ==> (r@ as real) == self@,
-            is_integral(self@) ==> rat_denom(self@) == 1,
+            rat_denom(self@) == 1 ==> (r@ as real) == self@ && r@ == self@.floor(),
+            is_integral(self@) <==> rat_denom(self@) == 1,
     {
         unimplemented!()
     }
@@ -86,7 +87,7 @@ impl BigRat {
             r@ == rat_denom(self@),
             r@ > 0,
             (rat_numer(self@) as real) == self@ * (r@ as real),
-            is_integral(self@) ==> r@ == 1,
+            is_integral(self@) <==> r@ == 1,
     {
         unimplemented!()
     }
